@@ -80,6 +80,17 @@ def grid(tier):
                     out.append({'mode': 'client', 'class': 'deadline_malformed_header', 'transport': 'h2', 'shim': {'cap': 65536, 'rq': 65536, 'wq': 65536, 'pend': 0},
                                 'shape': 'unary', 'server': server, 'client': client, 'req': {'meta': [], 'msgs': [[1]]},
                                 'script': {'init_meta': [], 'msgs': [[2]], 'end': {'ok': True}, 'fail_before': False, 'no_compress': False, 'latency_ms': L}})
+    # same tick: latency and timeout differ by less than the runtime's timer granularity (1 ms) - the handler still finishes first
+    # (only the server-side timeout: there the handler and the timer are two arms of one future; a client-side timer races with the
+    # response's way back through the transport, and with a 1 ms timer wheel the handler's own sleep really ends after a sub-millisecond deadline)
+    for lat_us, t_us, where in ((200, 900, 'server'), (1200, 1900, 'server'), (100, 101, 'server'), (2300, 2999, 'server'), (1, 999, 'server'), (5400, 5900, 'server')):
+        for shape in ('unary', 'sstream'):
+            client = {'send': '', 'accept': [], 'max_dec': -1, 'max_enc': -1}
+            server = {'send': [], 'accept': [], 'max_dec': -1, 'max_enc': -1}
+            (client if where == 'client' else server)['timeout_us'] = t_us
+            out.append({'mode': 'client', 'class': 'deadline_same_tick', 'transport': 'h2', 'shim': {'cap': 65536, 'rq': 65536, 'wq': 65536, 'pend': 0}, 'same_tick': True, 'min_timeout_us': t_us,
+                        'shape': shape, 'server': server, 'client': client, 'req': {'meta': [], 'msgs': [[1]]},
+                        'script': {'init_meta': [], 'msgs': [[2]], 'end': {'ok': True}, 'fail_before': False, 'no_compress': False, 'latency_us': lat_us}})
     # the order of builder calls must not matter: a tower layer is added to the server builder before / after the timeout is set
     k = 0
     for st in out:
